@@ -54,13 +54,23 @@ def run(F, R):
         ("success(UpdateComplete{})", inst_nonempty, "update-complete"),
     ]
     rendered = {}
+    alts = {}
     for (x, ev_idx) in helper_calls:
         nd = S.nodes[x]
-        rendered[x] = terms.render(hb, hb.trace_op(nd.term["args"][ev_idx]), W, {})
+        tm_ = hb.trace_op(nd.term["args"][ev_idx])
+        rendered[x] = terms.render(hb, tm_, W, {})
+        alts[x] = [terms.render(hb, a_, W, {}) for a_ in tm_[1]] if tm_[0] == "phi" else [rendered[x]]
+    exps_ = set(e_[0] for e_ in table)
+    # one call site that reports one of several listed events (the arms chose the event, a shared tail sends it)
+    merged = set(x for x in alts if len(alts[x]) > 1 and all(a_ in exps_ for a_ in alts[x]))
     used = set()
     for (exp, edges, tag) in table:
         sites = [x for x, r in rendered.items() if r == exp]
         used |= set(sites)
+        if not sites and any(exp in alts[x] for x in merged):
+            used |= set(x for x in merged if exp in alts[x])
+            R.inconclusive("C10-R1", "event:" + tag, "the %s event is chosen in one place and sent by a call site shared with other listed events; which outcome sends which event is not decided for that spelling" % tag)
+            continue
         if not R.check("C10-R1", "event:" + tag, len(sites) == 1, "one report site with %s" % exp[:60], "%d report sites carry %s (all events: %s)" % (len(sites), exp[:60], sorted(set(rendered.values())))):
             continue
         if not R.floor("C10-R1", "outcome edges for " + tag, len(edges), 1):
@@ -127,6 +137,15 @@ def run(F, R):
                 if "Installed" in si.edge_names(hb, tgt):
                     others = [x for x in hb.succ[sw] if x != tgt]
                     ok = len(pushes) == 1 and pushes[0] in hb.reach_from([tgt]) and pushes[0] not in hb.reach_from(others, avoid=[sw])
+                    if not ok and len(pushes) == 1 and pushes[0] in hb.reach_from([tgt]):
+                        # the arms may only choose a flag (`(event, true)`) that a later test consumes: decide on the paths that
+                        # are feasible given what each arm built (path-sensitive facts of the event skeleton)
+                        nodes_of = lambda b_: [n_.idx for n_ in S.nodes if n_.ctx.bv is hb and n_.bi == b_ and n_.idx in S.live]
+                        swn, pn = nodes_of(sw), nodes_of(pushes[0])
+                        if swn and pn:
+                            feas_in = all(any(p_ in reach_pf(S, [e_]) for p_ in pn) for s_ in swn for e_ in S.succ[s_] if S.nodes[e_].bi == tgt)
+                            feas_out = any(p_ in reach_pf(S, [e_], cut_nodes=swn) for s_ in swn for e_ in S.succ[s_] if S.nodes[e_].bi in others for p_ in pn)
+                            ok = feas_in and not feas_out
             R.check("C10-R1", "installed-list", ok, "installed_apps.push exactly in the Installed arm", "the installed list is not extended exactly for Installed apps")
 
     # ---------------------------------------------------------------- R2 ids
